@@ -32,45 +32,60 @@ fn reset_ghost(mode: u8, widx: usize) {
 /// dec_total (C07/C19): Packet::decode returns normally for EVERY datagram of every length 0..=1400,
 /// every prefix byte, with/without key, with/without window; the AEAD verdict is arbitrary.
 /// Also: a ConnectionRequest is only ever parsed from >= 1078 bytes, a Response from >= 325 bytes.
-#[kani::proof]
-#[kani::unwind(34)]
-fn dec_total() {
-    reset_ghost(0, 0);
-    let mut buf: [u8; NETCODE_MAX_PACKET_BYTES] = kani::any();
-    let len: usize = kani::any();
-    kani::assume(len <= NETCODE_MAX_PACKET_BYTES);
-    let key: [u8; 32] = kani::any();
-    let pid: u64 = kani::any();
-    let mut rp = any_window();
-    kani::assume(rp_most_recent(&rp) < (1u64 << 63));
-    let has_key: bool = kani::any();
-    let has_rp: bool = kani::any();
-    let r = Packet::decode(
-        &mut buf[..len],
-        pid,
-        if has_key { Some(&key) } else { None },
-        if has_rp { Some(&mut rp) } else { None },
-    );
-    match &r {
-        Ok((_, Packet::ConnectionRequest { .. })) => {
-            assert!(len >= 1078, "connection request parsed from a short datagram");
-            kani::cover!(true, "request parsed");
+macro_rules! dec_total {
+    ($name:ident, $size:expr, $full:expr) => {
+        #[kani::proof]
+        #[kani::unwind(34)]
+        fn $name() {
+            reset_ghost(0, 0);
+            let mut buf: [u8; $size] = kani::any();
+            let len: usize = kani::any();
+            kani::assume(len <= $size);
+            let key: [u8; 32] = kani::any();
+            let pid: u64 = kani::any();
+            let mut rp = any_window();
+            kani::assume(rp_most_recent(&rp) < (1u64 << 63));
+            let has_key: bool = kani::any();
+            let has_rp: bool = kani::any();
+            let r = Packet::decode(
+                &mut buf[..len],
+                pid,
+                if has_key { Some(&key) } else { None },
+                if has_rp { Some(&mut rp) } else { None },
+            );
+            match &r {
+                Ok((_, Packet::ConnectionRequest { .. })) => {
+                    assert!(len >= 1 + 13 + 8 + 8 + NETCODE_CONNECT_TOKEN_XNONCE_BYTES + NETCODE_CONNECT_TOKEN_PRIVATE_BYTES, "connection request parsed from a short datagram");
+                    if $full {
+                        kani::cover!(true, "request parsed");
+                    }
+                }
+                Ok((_, Packet::Response { .. })) => {
+                    assert!(len >= 1 + 8 + NETCODE_CHALLENGE_TOKEN_BYTES + 16, "response parsed from a short datagram");
+                    if $full {
+                        kani::cover!(true, "response parsed");
+                    }
+                }
+                Ok((_, Packet::Payload(p))) => {
+                    assert!(p.len() + 1 + 16 <= len);
+                    if $full {
+                        kani::cover!(p.len() == NETCODE_MAX_PAYLOAD_BYTES, "payload of the maximum size parsed");
+                    }
+                }
+                Ok(_) => {}
+                Err(_) => {
+                    kani::cover!(len >= 18, "long enough but rejected");
+                }
+            }
+            if !$full {
+                assert!(!matches!(r, Ok((_, Packet::ConnectionRequest { .. })) | Ok((_, Packet::Response { .. })) | Ok((_, Packet::Challenge { .. }))), "handshake packet parsed from <= 64 bytes");
+            }
+            std::mem::forget(r);
         }
-        Ok((_, Packet::Response { .. })) => {
-            assert!(len >= 1 + 308 + 16, "response parsed from a short datagram");
-            kani::cover!(true, "response parsed");
-        }
-        Ok((_, Packet::Payload(p))) => {
-            assert!(p.len() + 1 + 16 <= len);
-            kani::cover!(p.len() == 1300, "payload of 1300 bytes parsed");
-        }
-        Ok(_) => {}
-        Err(_) => {
-            kani::cover!(len >= 18, "long enough but rejected");
-        }
-    }
-    std::mem::forget(r);
+    };
 }
+dec_total!(dec_total, NETCODE_MAX_PACKET_BYTES, true);
+dec_total!(dec_total_64, 64, false);
 
 /// dec_binding (C04/C17): whenever decode reaches the AEAD, the call carries exactly
 /// key = the key argument, nonce = 0^4 || LE(sequence bytes of the datagram),
@@ -420,7 +435,7 @@ fn enc_len_request() {
         protocol_id: kani::any(),
         expire_timestamp: kani::any(),
         xnonce: kani::any(),
-        data: [3u8; 1024],
+        data: [3u8; NETCODE_CONNECT_TOKEN_PRIVATE_BYTES],
     };
     let r = p.encode(&mut out, kani::any(), None);
     match &r {
@@ -499,7 +514,7 @@ macro_rules! rt_body_kind {
         #[kani::unwind(34)]
         fn $name() {
             let w: usize = kani::any();
-            kani::assume(w < 300);
+            kani::assume(w < NETCODE_CHALLENGE_TOKEN_BYTES);
             unsafe {
                 RT_W = w;
             }
@@ -645,7 +660,7 @@ fn rt_nc_payload_sizes() {
 fn rt_nc_request() {
     reset_ghost(1, 0);
     let w: usize = kani::any();
-    kani::assume(w < 1024);
+    kani::assume(w < NETCODE_CONNECT_TOKEN_PRIVATE_BYTES);
     let xw: usize = kani::any();
     kani::assume(xw < 24);
     let mut out = [0u8; NETCODE_MAX_PACKET_BYTES];
@@ -653,7 +668,7 @@ fn rt_nc_request() {
     let protocol_id: u64 = kani::any();
     let expire_timestamp: u64 = kani::any();
     let xnonce: [u8; 24] = kani::any();
-    let data: [u8; 1024] = kani::any();
+    let data: [u8; NETCODE_CONNECT_TOKEN_PRIVATE_BYTES] = kani::any();
     let p = Packet::ConnectionRequest { version_info, protocol_id, expire_timestamp, xnonce, data };
     let r = p.encode(&mut out, kani::any(), None);
     let n = match &r {
@@ -681,10 +696,10 @@ fn rt_nc_request() {
 #[kani::unwind(34)]
 fn rt_challenge_token() {
     let w: usize = kani::any();
-    kani::assume(w < 256);
+    kani::assume(w < NETCODE_USER_DATA_BYTES);
     reset_ghost(1, 0);
     let id: u64 = kani::any();
-    let ud: [u8; 256] = kani::any();
+    let ud: [u8; NETCODE_USER_DATA_BYTES] = kani::any();
     let cs: u64 = kani::any();
     let ck: [u8; 32] = kani::any();
     let p = Packet::generate_challenge(id, &ud, cs, &ck);
@@ -692,7 +707,7 @@ fn rt_challenge_token() {
         Ok(Packet::Challenge { token_sequence, token_data }) => {
             assert!(*token_sequence == cs);
             let c = unsafe { aead::CALLS[0] };
-            assert!(!c.decrypt && c.key == ck && c.aad_len == 0 && c.len == 300 - 16);
+            assert!(!c.decrypt && c.key == ck && c.aad_len == 0 && c.len == NETCODE_CHALLENGE_TOKEN_BYTES - 16);
             let mut nonce = [0u8; 24];
             nonce[4..12].copy_from_slice(&cs.to_le_bytes());
             assert!(c.nonce == nonce);
@@ -728,4 +743,151 @@ fn enc_witness() {
         assert!(false, "witness");
     }
     std::mem::forget(d);
+}
+
+// =====================================================================================================================
+// CONTRACT functions for the netcode-server step lemmas (variant "contracts"; see models/netcode_contracts.rs).
+// tools/stage.py re-points server.rs's calls to Packet::decode / encode / generate_challenge and ChallengeToken::decode
+// at these.  What they assume about the real functions is what dec_total, dec_binding, dec_window_order, enc_len_*,
+// rt_nc_* and rt_challenge_token establish for them at the real sizes, plus the ideal-AEAD assumption.
+use crate::verif_models::contracts as ct;
+
+pub(crate) const VERIF_REQUEST_BYTES: usize = 1 + 13 + 8 + 8 + NETCODE_CONNECT_TOKEN_XNONCE_BYTES + NETCODE_CONNECT_TOKEN_PRIVATE_BYTES;
+
+impl<'a> Packet<'a> {
+    pub(crate) fn verif_decode(
+        buffer: &'a mut [u8],
+        protocol_id: u64,
+        private_key: Option<&[u8; 32]>,
+        replay_protection: Option<&mut ReplayProtection>,
+    ) -> Result<(u64, Self), NetcodeError> {
+        unsafe {
+            ct::NDEC += 1;
+            ct::DEC_HAD_KEY = private_key.is_some();
+            if let Some(k) = private_key {
+                ct::DEC_KEY = *k;
+            }
+            ct::DEC_HAD_WINDOW = replay_protection.is_some();
+        }
+        if buffer.len() < 2 + NETCODE_MAC_BYTES {
+            return Err(NetcodeError::PacketTooSmall);
+        }
+        let ty = buffer[0] & 0xF;
+        if ty > 6 {
+            return Err(NetcodeError::InvalidPacketType);
+        }
+        if ty == 0 {
+            // a connection request travels in the clear: every field is the sender's choice, nothing is authenticated
+            if buffer.len() < VERIF_REQUEST_BYTES || unsafe { !ct::REQ_PARSES } {
+                return Err(NetcodeError::PacketTooSmall);
+            }
+            return Ok((0, unsafe {
+                Packet::ConnectionRequest {
+                    version_info: ct::REQ_VERSION,
+                    protocol_id: ct::REQ_PID,
+                    expire_timestamp: ct::REQ_EXPIRE,
+                    xnonce: ct::REQ_XNONCE,
+                    data: ct::REQ_DATA,
+                }
+            }));
+        }
+        let key = match private_key {
+            Some(k) => k,
+            None => return Err(NetcodeError::UnavailablePrivateKey),
+        };
+        let seq_len = (buffer[0] >> 4) as usize;
+        if seq_len > 8 || buffer.len() < 1 + seq_len + NETCODE_MAC_BYTES {
+            return Err(NetcodeError::PacketTooSmall);
+        }
+        let protected = ty == 4 || ty == 5 || ty == 6;
+        let (auth, akey, apid, akind, aseq) = unsafe { (ct::AUTH, ct::AUTH_KEY, ct::AUTH_PID, ct::AUTH_KIND, ct::AUTH_SEQ) };
+        // the sequence is read from the header before anything is authenticated (replay check first: dec_window_order);
+        // for a forged datagram it is arbitrary - but then the AEAD rejects, so only the authentic one matters
+        let sequence = aseq;
+        if let Some(ref rp) = replay_protection {
+            if auth && ty == akind && protected && rp.already_received(sequence) {
+                return Err(NetcodeError::DuplicatedSequence);
+            }
+        }
+        // ideal AEAD: only THE datagram sealed by the key holder verifies - under its key, protocol id, kind, sequence
+        if !(auth && *key == akey && protocol_id == apid && ty == akind && ct::sequence_bytes(aseq) == seq_len) {
+            return Err(NetcodeError::CryptoError);
+        }
+        unsafe {
+            ct::DEC_AUTHENTICATED = true;
+        }
+        if let Some(rp) = replay_protection {
+            if protected {
+                rp.advance_sequence(sequence);
+            }
+        }
+        let body = 1 + seq_len;
+        let end = buffer.len() - NETCODE_MAC_BYTES;
+        let packet = match ty {
+            1 => Packet::ConnectionDenied,
+            2 => Packet::Challenge { token_sequence: unsafe { ct::AUTH_A }, token_data: unsafe { ct::AUTH_TOKEN } },
+            3 => Packet::Response { token_sequence: unsafe { ct::AUTH_A }, token_data: unsafe { ct::AUTH_TOKEN } },
+            4 => Packet::KeepAlive { client_index: unsafe { ct::AUTH_A } as u32, max_clients: unsafe { ct::AUTH_B } as u32 },
+            5 => Packet::Payload(&buffer[body..end]),
+            _ => Packet::Disconnect,
+        };
+        Ok((sequence, packet))
+    }
+
+    pub(crate) fn verif_encode(&self, buffer: &mut [u8], protocol_id: u64, crypto_info: Option<(u64, &[u8; 32])>) -> Result<usize, NetcodeError> {
+        let (sequence, key) = match crypto_info {
+            Some(x) => x,
+            None => return Err(NetcodeError::UnavailablePrivateKey),
+        };
+        let (body, a, b) = match self {
+            Packet::ConnectionRequest { .. } => return Err(NetcodeError::InvalidPacketType), // never sealed; the server never sends one
+            Packet::ConnectionDenied | Packet::Disconnect => (0, 0, 0),
+            Packet::Challenge { token_sequence, .. } | Packet::Response { token_sequence, .. } => (8 + NETCODE_CHALLENGE_TOKEN_BYTES, *token_sequence, 0),
+            Packet::KeepAlive { client_index, max_clients } => (8, *client_index as u64, *max_clients as u64),
+            Packet::Payload(p) => (p.len(), 0, 0),
+        };
+        let len = 1 + ct::sequence_bytes(sequence) + body + NETCODE_MAC_BYTES;
+        if buffer.len() < len {
+            return Err(NetcodeError::PacketTooSmall);
+        }
+        unsafe {
+            if ct::NENC < 2 {
+                ct::ENC[ct::NENC] = ct::EncCall { kind: self.id(), sequence, key: *key, protocol_id, a, b, len };
+            }
+            ct::NENC += 1;
+        }
+        Ok(len)
+    }
+
+    pub(crate) fn verif_generate_challenge(
+        client_id: u64,
+        user_data: &[u8; NETCODE_USER_DATA_BYTES],
+        challenge_sequence: u64,
+        challenge_key: &[u8; NETCODE_KEY_BYTES],
+    ) -> Result<Self, NetcodeError> {
+        unsafe {
+            ct::NGEN += 1;
+            ct::GEN_ID = client_id;
+            ct::GEN_UD = *user_data;
+            ct::GEN_SEQ = challenge_sequence;
+            ct::GEN_KEY = *challenge_key;
+        }
+        Ok(Packet::Challenge { token_sequence: challenge_sequence, token_data: [0u8; NETCODE_CHALLENGE_TOKEN_BYTES] })
+    }
+}
+
+impl ChallengeToken {
+    pub(crate) fn verif_decode(
+        token_data: [u8; NETCODE_CHALLENGE_TOKEN_BYTES],
+        token_sequence: u64,
+        challenge_key: &[u8; NETCODE_KEY_BYTES],
+    ) -> Result<ChallengeToken, NetcodeError> {
+        unsafe {
+            ct::NCHAL_DEC += 1;
+            if ct::CHAL && *challenge_key == ct::CHAL_KEY && token_sequence == ct::CHAL_SEQ && token_data == ct::CHAL_DATA {
+                return Ok(ChallengeToken { client_id: ct::CHAL_ID, user_data: ct::CHAL_UD });
+            }
+        }
+        Err(NetcodeError::CryptoError)
+    }
 }
